@@ -48,6 +48,13 @@ mutual
     | t :: ts => ValidTy t ∧ ValidTys ts
 end
 
+/-- **Regenerated tie for the signed range check.** `checkSignedIntFits` still decides by comparing with the two per-width
+    bounds, and the bounds are still `2^(m-1) - 1` and `-(2^(m-1))` — the shape the model's `-(2^(m-1)) ≤ z < 2^(m-1)`
+    mirrors. A rewrite of the function (whatever it computes) breaks this obligation; the check then searches the
+    far-out-of-range candidates for an input the rewritten code accepts. -/
+theorem signed_range_facts : Gen.AbiCodecFacts.signedRangeByBounds = true ∧ Gen.AbiCodecFacts.signedPosBound = true ∧
+    Gen.AbiCodecFacts.signedNegBound = true := by decide
+
 /-! ### arithmetic helpers -/
 
 theorem bitLen_le_of_lt (n m : Nat) (h : n < 2 ^ m) : bitLen n ≤ m := by
